@@ -335,6 +335,8 @@ impl Shell {
 }
 
 pub unsafe fn give_terminal_to(gid: i32) -> bool {
+    #[cfg(cicada_verif)]
+    use crate::verif::libc_shim as libc;
     let mut mask: libc::sigset_t = mem::zeroed();
     let mut old_mask: libc::sigset_t = mem::zeroed();
 
